@@ -602,7 +602,13 @@ class SymReal:
         raise Unsupported('int() of symbolic real')
 
     def __round__(s, n=None):
-        return s        # rounding is outside the real-arithmetic claim
+        """round(x, n): fresh r with |r - x| <= 0.5 * 10**-n (sound abstraction of decimal rounding)"""
+        st = cur()
+        r = st.fresh('round')
+        half = z3.RealVal(str(fractions.Fraction(1, 2) / fractions.Fraction(10) ** int(n or 0)))
+        st.define(r - s.t <= half, s.t - r <= half)
+        st.notes.append('round()')
+        return SymReal(r)
 
     def item(s):
         return s
